@@ -4,6 +4,16 @@ pid, n = sys.argv[1], sys.argv[2]
 p = next(json.loads(l) for l in open("/verif/properties.jsonl") if json.loads(l)["id"] == pid)
 wt = "/tmp/seedwt_%s_%s" % (pid, n)
 out = "/tmp/seedout_%s_%s" % (pid, n)
+import glob
+prev = []
+for m in sorted(glob.glob("/verif/seeded/%s_*/meta.json" % pid)):
+    try:
+        prev.append(json.load(open(m)).get("summary", ""))
+    except Exception:
+        pass
+avoid = ""
+if prev:
+    avoid = "\nChanges that have ALREADY been tried by others for this property — pick a DIFFERENT mechanism, site and trigger (not a variation of these):\n" + "\n".join("  - " + x for x in prev if x) + "\n"
 print(f"""You are helping to evaluate a verification effort by playing the adversary. A Python project (EBU ADM Renderer, `ear`) is checked out for you as a scratch git worktree at {wt} (create nothing outside {wt} and {out}; do not look at or touch /repo, /verif or any other directory; do not use git commands that affect anything other than this worktree).
 
 Here is one semantic property the project is supposed to satisfy:
@@ -13,6 +23,7 @@ Here is one semantic property the project is supposed to satisfy:
   Quantified over: {p['quantifier']['text']}
   Relevant files: {', '.join(p['anchors']['files'])}
 
+{avoid}
 YOUR TASK: write ONE small, realistic change to the project's source (not to its tests) that BREAKS this property while (a) the code still imports/compiles, (b) the project's existing test suite still passes exactly as before, and (c) the breakage needs something SPECIFIC to manifest — an unusual input, a particular boundary value, a multi-step sequence of operations, a particular block split, or two cooperating sites that each look fine alone — NOT something ordinary use or a trivial smoke test would expose at once. It should look like a plausible bug a maintainer could introduce (an off-by-one, a wrong comparison, a mishandled parity/edge case, a stale variable, an optimisation that is wrong in a corner), not sabotage, and must not be a no-op or a pure crash on all inputs.
 
 How to work:
